@@ -215,6 +215,11 @@ class Ctx:
         return p
 
     def go_test(self, pkg, gopkg, files, test, env, timeout=900, pam=False, replace=None, race=False):
+        if self.tier == "quick":
+            # a quick-tier harness run takes well under two minutes even on a loaded machine; an
+            # implementation that hangs must not hold the check for half an hour (it is reported as
+            # broken correspondence with the goroutine dump)
+            timeout = min(timeout, 600)
         ov = self.overlay(pkg, files, gopkg, replace)
         cmd = ["go", "test", "-tags", "verif", "-vet=off", "-overlay", ov, "-count=1", "-timeout", "%ds" % timeout,
                "-run", test]
